@@ -14,6 +14,7 @@ import (
 	"fmt"
 	"io"
 	"log/slog"
+	"os"
 	"runtime"
 	"runtime/debug"
 	"sort"
@@ -53,12 +54,13 @@ func TestWorker(t *testing.T) {
 // memory between tasks; a missing mutex in the handler shows as overlapping
 // Write calls and as a race inside the shared json.Encoder.
 type simWriter struct {
-	k       *kernel.Kernel
-	buf     []byte       // scheduler-side
-	inWrite map[int]bool // scheduler-side, per handler family
-	writes  int          // scheduler-side
-	panicAt int          // scheduler-side: index of the Write that panics, -1 none
-	errAt   int          // scheduler-side: index of the Write that fails with an error, -1 none
+	k        *kernel.Kernel
+	buf      []byte       // scheduler-side
+	inWrite  map[int]bool // scheduler-side, per handler family
+	writes   int          // scheduler-side
+	panicAt  int          // scheduler-side: index of the Write that panics, -1 none
+	errAt    int          // scheduler-side: index of the Write that fails with an error, -1 none
+	deadline time.Time    // scheduler-side: write deadline, if one was set
 
 	// curFam[i] is the handler family (the handlers that go back to one
 	// constructor call) task i is handling through; famFailed[f] is set once a
@@ -73,8 +75,20 @@ var errWriterFailed = fmt.Errorf("verif: the writer fails")
 // errWriterPanic is what the writer panics with when told to fail that way.
 var errWriterPanic = fmt.Errorf("verif: the writer panics")
 
+// SetWriteDeadline makes the writer one "that supports write deadlines" (a
+// pipe, a socket): a Write after a deadline that somebody has set fails, as
+// those do.  Nobody has a reason to set one.
+func (w *simWriter) SetWriteDeadline(t time.Time) error {
+	w.k.Tell("writer.deadline", func() { w.deadline = t })
+
+	return nil
+}
+
 func (w *simWriter) Write(p []byte) (int, error) {
 	k := w.k
+	if expired := k.Ask("writer.deadline?", func() any { return !w.deadline.IsZero() && !time.Now().Before(w.deadline) }).(bool); expired {
+		return 0, os.ErrDeadlineExceeded
+	}
 	// The writer itself is one whose Write calls are atomic (as a file's are):
 	// the bytes of one call stay together.  Handlers that go back to one
 	// constructor call must serialise their calls all the same (they share
